@@ -1451,6 +1451,8 @@ class C08(Prop):
         ("slot-arithmetic-overflow", r"ir/src/ir_module\.rs", "process_definition", r"attempt to (add|multiply) with overflow"),
         ("non-resource-object-global", r"ir/src/ir_types\.rs", "get_register_type", r"get_register_type called on non-root object types"),
         ("declared-function-without-definition", r"(hlsl/src/ast_generate|msl/src/generator)\.rs", "generate_function_inner", r"called `Option::unwrap\(\)` on a `None` value"),
+        ("type-named-like-function", r"typer/src/typer/scopes\.rs", "find_identifier_in_scope", r"assertion failed: overloads\.is_empty\(\)"),
+        ("template-value-parameter-used-as-type", r"typer/src/typer/scopes\.rs", "find_identifier_in_scope", r"internal error: entered unreachable code"),
     ]
 
     def kind(self, case):
